@@ -140,7 +140,7 @@ def run(ctx):
             ctx.fail("oracle", f"c03:unexpected-exception:{kind}", f"{type(e).__name__}: {e} raised at {where} on a valid {kind} case", case=case, concrete=True)
     # unfusing several legs at once, traces over fused legs of different content on lazily held operands, fused operands in general
     from .. import views
-    views.run(ctx, 350 if ctx.quick else 6000, 20 if ctx.quick else 250, which=("R2", "R2", "R4", "R4", "R1", "R5", "R5", "R6", "R7", "R7"))
+    views.run(ctx, 350 if ctx.quick else 6000, 20 if ctx.quick else 250, which=("R2", "R2", "R4", "R4", "R1", "R5", "R5", "R6", "R6", "R7", "R7", "R8"))
 
 
 # --------------------------------------------------------------------------------------------------------
